@@ -539,6 +539,10 @@ func (e *env) step(lib common.BeaconState, pre any, ch *Chain, args []Arg) (out 
 		if out.note == "" {
 			out.note = "ok"
 		}
+		// a getter must hand out a VALUE: overwrite what it returned; the state must not notice
+		for _, rv := range co.res {
+			scribble(rv, 0)
+		}
 	}
 
 judgeState:
